@@ -15,24 +15,76 @@ P = {'id': 'C02',
               'legacy_stream_roundtrip',
               'far1short_old_reader_refuted',
               'rans_compressor_refuted',
-              'normalize_not_idempotent'],
+              'normalize_not_idempotent',
+              'rans_compressor_roundtrip',
+              'rans_frame_roundtrip',
+              'rans_counts_u16_refuted',
+              'dict_compressor_roundtrip',
+              'huffman_compressor_roundtrip',
+              'huffman_tree_serialize_roundtrip',
+              'huffman_size_u16_refuted',
+              'hybrid_compressor_roundtrip',
+              'realtime_block_roundtrip',
+              'realtime_tag_names_producer',
+              'realtime_batch_roundtrip',
+              'adaptive_roundtrip',
+              'adaptive_history_total',
+              'adaptive_zero_interval_refuted',
+              'realtime_stale_block_limit',
+              'simd_copy_is_lz_copy',
+              'simd_copy_periodic',
+              'simd_tokens_roundtrip',
+              'simd_tokens_padding_err',
+              'simd_decode_padding_refuted',
+              'simd_stream_roundtrip',
+              'simd_lz77_roundtrip',
+              'simd_covers_unless_early',
+              'simd_find_never_fuel',
+              'simd_token_defined',
+              'simd_compress_defined',
+              'simd_reconstruct_fast_eq',
+              'simd_decompress_fast_eq',
+              'simd_lz77_literal_refuted',
+              'simd_lz77_rle_refuted',
+              'simd_lz77_padding_refuted',
+              'simd_lz77_early_termination_refuted',
+              'simd_lz77_roundtrip_g',
+              'pazip_sequential_roundtrip',
+              'pazip_compress_roundtrip',
+              'pazip_compress_roundtrip_real',
+              'pazip_answer_ok_guarded',
+              'pazip_guarded_candidates_fit',
+              'pazip_unguarded_candidate_unfit',
+              'pazip_far2long_len65536_refuted',
+              'pazip_blockwise_old_refuted',
+              'pazip_global_guard_needed',
+              'pazip_compress_as_replay',
+              'pazip_choose_type_true_match'],
+ 'coq_deps': ['C01'],
  'trusted': ['modelled (M+S): src/compression/dict_zip/compression_types.rs (CompressionType::supports, Match::validate, BitWriter, BitReader, '
              'encode/decode_variable_length, encode_match, decode_match, encode_matches, decode_matches) bit-exact; src/compression/mod.rs '
              'HybridCompressor::{compress,decompress} over arbitrary component codecs, the HuffmanCompressor header layout over an arbitrary tree '
              '(de)serialiser and entropy coder; src/entropy/rans.rs Rans64Encoder::normalize_frequencies as applied to the RansCompressor header',
-             'spec-only cells (direct oracle, no mechanism model): CompressorFactory x {None, Lz4, Zstd(-5,1,3,9,19), Huffman, Rans, Dictionary, SimdLz77, Hybrid} '
-             'end to end incl. a second instance trained on other data decoding Huffman/rANS output; AdaptiveCompressor and RealtimeCompressor operation '
-             'histories (algorithm/mode switches, passed and distant deadlines); PaZipCompressor x 6 presets x 3 dictionary builders; '
-             'SimdLz77Compressor inherent compress/decompress',
-             'not modelled: the entropy coders themselves (Huffman, rANS, dictionary: property C01), zstd, lz4 (feature off in the default build: the '
-             'factory hands out a compressor that refuses, counted as not obtainable), PA-Zip match selection (suffix-array dictionary, local matcher, '
-             'cost model; Local strategies are unreachable through compress because the local matcher is never fed - their records are exercised '
-             'through the hook), '
-             'wall-clock behaviour of the real-time front end (deadlines are forced to both outcomes instead)'],
+             'modelled by the extension (M+S): RansCompressor, DictCompressor, HuffmanCompressor end to end (src/compression/mod.rs; HuffmanTree::serialize/deserialize of '
+             'src/entropy/huffman.rs with both HashMap iteration orders as parameters) composed with the coder models of coq/C01; HybridCompressor over these three components; '
+             'RealtimeCompressor and AdaptiveCompressor as decision automata (clock readings and cost-model outcome as inputs); PaZipCompressor::compress legacy path '
+             '(candidate strategies with their guards, choose_best_compression_type complete, per-position loop, block-wise path) over abstract match finders and an abstract '
+             'selector; SimdLz77Compressor inherent compress/decompress (token stream, guard-3 decode loop, reconstruction with placeholder literals)',
+             'spec-only cells (direct oracle, no mechanism model): CompressorFactory x {None, Lz4, Zstd(-5,1,3,9,19), SimdLz77 trait impl} end to end; '
+             'PaZipCompressor x 6 presets x 3 dictionary builders end to end with the real match finders (the loop is tied through hooks verif_candidates / '
+             'verif_apply_strategy, the block-wise path at its real sizes is observed by the oracle only)',
+             'not modelled: zstd, lz4 (feature off in the default build: the factory hands out a compressor that refuses, counted as not obtainable), the PA-Zip match finders '
+             '(suffix-array dictionary, DFA cache, local matcher: their answers are inputs of the model; the theorem asks only that they are true matches), the f64 cost models '
+             '(PA-Zip selector, adaptive scores, SIMD LZ77 early-termination average: abstract inputs), the SIMD LZ77 pattern search, '
+             'wall-clock behaviour of the real-time front end (every clock comparison is an input of the automaton; the harness forces passed and distant deadlines and batches that overrun)'],
  'assumptions': ['u8/u16/u32 field types of Match are the predicate wt; usize is 64 bits',
                  'agreement of model and code is established on the generated cases only (encode_matches output bytes, decode_matches on encoded and on '
                  'arbitrary bytes incl. Err/Panic outcomes, hybrid tag and length, normalised rANS tables, the MAX_*/MIN_* constants, PA-Zip record bytes per strategy and decompress on record streams '
-                 'and on arbitrary byte streams)'],
+                 'and on arbitrary byte streams; compressor frames from the counts of the instance / tree bytes, front-end calls explained by some allowed clock reading, adaptive histories, '
+                 'PA-Zip candidate lists and replays of the selected strategies, SIMD LZ77 decompress on real, crafted and arbitrary streams)',
+                 'component codecs of the front ends (zstd, lz4, none) enter the real-time / adaptive theorems through their round-trip law (hypothesis codec_ok); the Huffman / rANS / '
+                 'dictionary components of the hybrid compressor are discharged by theorems',
+                 'payloads of at most MAX_DECOMPRESSED_SIZE (100 MiB) for the rANS / dictionary / hybrid compressors, below 2^32 bytes for Huffman, training corpora below 2^32 bytes (u32 counts)'],
  'level_text': 'Machine-checked Coq theorems about a bit-exact Gallina model of the PA-Zip match codec: BitWriter/BitReader refine a little-endian bit '
                'stream; for all 8 match kinds and every field value decode_match inverts encode_match and reports the same bit count; for every list of '
                'matches decode_matches(encode_matches(ms)) = (ms, total bits), with the exact domain on which the encoder succeeds; every match takes 8..59 '
@@ -40,10 +92,15 @@ P = {'id': 'C02',
                'whatever branch it takes; the Huffman header layout round-trips; every parse of a payload into PA-Zip byte-level records (literal, RLE, '
                'near/far short/long, global) whose fields fit their casts decodes to the payload; refutation theorems (with witnesses replayed on the code) for the four '
                'defects that were repaired (padding bits read as a match, Far3Long length masked, rANS table normalised twice, hybrid raw fallback tagged 0). '
-               'The model is tied to the code by evaluating generated cases in Coq against what the implementation returned. All other compressors and front '
-               'ends are decided by a boundary-biased round-trip oracle only, labelled S-only.',
+               'The model is tied to the code by evaluating generated cases in Coq against what the implementation returned. '
+               'Extension: the trained compressors end to end over the C01 coder theorems (rans_compressor_roundtrip incl. an instance trained on other data, dict_compressor_roundtrip, '
+               'huffman_compressor_roundtrip over any heap behaviour and any HashMap order, hybrid_compressor_roundtrip with the component laws discharged), the real-time and adaptive front '
+               'ends as automata (realtime_block_roundtrip, realtime_batch_roundtrip, realtime_tag_names_producer, adaptive_roundtrip for every history), PaZipCompressor::compress over abstract '
+               'true-match finders for every configuration and block size (pazip_compress_roundtrip), the SIMD LZ77 token stream with the exact conditions under which it loses data; refutations '
+               'for every narrower field layout / missing guard that was tried or repaired. zstd / lz4 / None and the PA-Zip presets with the real match finders remain oracle-only (S-only).',
  'level_note': 'Trusted: Coq kernel + vm_compute; hand-written model; harness generators and the round-trip oracle. Entropy coders and zstd are parameters '
                '(Section variables / record fields) of the framing theorems.',
  'technique': 'Coq proof by refinement of the bit writer/reader to arithmetic on a little-endian number (lia/nia), induction over field lists and match '
               'lists; model/implementation differential check by vm_compute; direct round-trip oracle over every compressor, configuration and front end',
- 'explanation': 'Unbounded theorems for the PA-Zip bit-level codec and the hybrid/Huffman/rANS framing; round-trip oracle for everything else.'}
+ 'explanation': 'Unbounded theorems for the PA-Zip bit-level codec, the byte-level record format and the compress loop, the trained compressors end to end over the C01 coders, '
+                'the hybrid selector, the real-time / adaptive front ends and the SIMD LZ77 token stream; round-trip oracle for zstd / lz4 and the real match finders.'}
